@@ -109,6 +109,10 @@ type World struct {
 	// OnBeforeDeliver runs just before a datagram is handed over (the server
 	// has not seen it yet).
 	OnBeforeDeliver func(c *SimConn, from *net.UDPAddr, b []byte)
+	// Extra offers additional external actions (e.g. "hand the next datagram to
+	// the read loop") to every scheduling step of Settle, so that they interleave
+	// with goroutine steps in yield mode.
+	Extra func() []Action
 	// OnQuiescent runs invariants after every settle+route.
 	OnQuiescent func()
 
@@ -301,7 +305,14 @@ func (w *World) Rest() { synctest.Wait() }
 // Settle runs the system to quiescence: all goroutines durably blocked and, in
 // yield mode, none parked at a scheduling point that can proceed.
 func (w *World) Settle() {
-	for w.Next(nil) {
+	for {
+		var acts []Action
+		if w.Extra != nil {
+			acts = w.Extra()
+		}
+		if !w.Next(acts) {
+			break
+		}
 	}
 	if !w.Budget && w.Sched.AnonYields > 0 {
 		w.HarnessErr = "yield from unregistered goroutine"
